@@ -133,10 +133,15 @@ func (w *c09World) mk(typ, sender string, sk *string, content interface{}, prev 
 }
 
 func (w *c09World) mkIn(room, typ, sender string, sk *string, content interface{}, prev []string) int {
+	return w.mkAuth(room, typ, sender, sk, content, prev, nil)
+}
+
+// mkAuth: as mkIn, with the auth_events the event cites
+func (w *c09World) mkAuth(room, typ, sender string, sk *string, content interface{}, prev, auth []string) int {
 	id := w.newID()
 	m := map[string]interface{}{
 		"event_id": id, "type": typ, "sender": sender, "content": content,
-		"prev_events": w.refs(prev), "auth_events": w.refs(nil), "depth": w.n, "origin_server_ts": 1000 + w.n,
+		"prev_events": w.refs(prev), "auth_events": w.refs(auth), "depth": w.n, "origin_server_ts": 1000 + w.n,
 	}
 	if !(w.domainless && typ == spec.MRoomCreate && sk != nil && *sk == "") {
 		m["room_id"] = room
@@ -731,7 +736,98 @@ func init() {
 		}
 		return args, B(strings.Join(out, ","))
 	})
+	// [ver; event; orders JSON; signature table of the event (model side only); inserted event ...]
+	// -> the Allowed verdict for every insertion order of the same events into NewAuthEvents
+	RegisterImpl("C09.order", func(args [][]byte) ([][]byte, []byte) {
+		ver := gmsl.RoomVersion(args[0])
+		ev, _, err := c09Parse(ver, args[1])
+		if err != nil {
+			return args, B("badevent")
+		}
+		var orders [][]int
+		if err := json.Unmarshal(args[2], &orders); err != nil {
+			return args, B("badorders")
+		}
+		pool, err := c09PoolFromArgs(ver, args[4:])
+		if err != nil {
+			return args, B("badpool")
+		}
+		out := make([]string, len(orders))
+		for i, o := range orders {
+			out[i] = c09OneShot(ev, c09Pick(pool, o))
+		}
+		return args, B(strings.Join(out, ","))
+	})
+	// [ver; plan JSON; pool event ...] -> "state after the real authAndApplyEvents loop|state after
+	// checking every event on its own with Allowed against a new provider" (sorted event IDs)
+	RegisterImpl("C09.loop", func(args [][]byte) ([][]byte, []byte) {
+		ver := gmsl.RoomVersion(args[0])
+		var plan c09LoopPlan
+		if err := json.Unmarshal(args[1], &plan); err != nil {
+			return args, B("badplan")
+		}
+		pool, err := c09PoolFromArgs(ver, args[2:])
+		if err != nil || len(plan.Events) == 0 {
+			return args, B("badpool")
+		}
+		rejected := map[string]bool{}
+		for _, i := range plan.Rejected {
+			rejected[pool[i].EventID()] = true
+		}
+		isRejected := func(id string) bool { return rejected[id] }
+		partial, auths, events := c09Pick(pool, plan.Partial), c09Pick(pool, plan.Auth), c09Pick(pool, plan.Events)
+		ids := func(evs []gmsl.PDU) string {
+			l := make([]string, len(evs))
+			for i, e := range evs {
+				l[i] = e.EventID()
+			}
+			sort.Strings(l)
+			return strings.Join(l, ",")
+		}
+		real := gmsl.VerifAuthAndApply(partial, auths, events, c09Querier, events[0].RoomID(), isRejected)
+		// the reference: the same loop with a new provider and plain Allowed for every event
+		type key struct{ t, k string }
+		state := map[key]gmsl.PDU{}
+		for _, e := range partial {
+			state[key{e.Type(), *e.StateKey()}] = e
+		}
+		authMap := map[string]gmsl.PDU{}
+		for _, e := range auths {
+			if _, ok := authMap[e.EventID()]; !ok {
+				authMap[e.EventID()] = e
+			}
+		}
+		for _, ev := range events {
+			var prov []gmsl.PDU
+			for _, t := range gmsl.StateNeededForAuth([]gmsl.PDU{ev}).Tuples() {
+				if e, ok := state[key{t.EventType, t.StateKey}]; ok {
+					prov = append(prov, e)
+					continue
+				}
+				for _, id := range ev.AuthEventIDs() {
+					if a, ok := authMap[id]; ok && !rejected[id] && a.Type() == t.EventType && a.StateKeyEquals(t.StateKey) {
+						prov = append(prov, a)
+					}
+				}
+			}
+			if c09OneShot(ev, prov) == "ok" && ev.StateKey() != nil {
+				state[key{ev.Type(), *ev.StateKey()}] = ev
+			}
+		}
+		var ref []gmsl.PDU
+		for _, e := range state {
+			ref = append(ref, e)
+		}
+		return args, B(ids(real) + "|" + ids(ref))
+	})
 	RegisterProp("C09", genC09)
+}
+
+type c09LoopPlan struct {
+	Partial  []int `json:"partial"`
+	Auth     []int `json:"auth"`
+	Events   []int `json:"events"`
+	Rejected []int `json:"rejected"`
 }
 
 func genC09(c *Ctx) {
@@ -746,6 +842,201 @@ func genC09(c *Ctx) {
 	genC09Invariance(c, vers, rooms)
 	genC09Sequences(c, vers, rooms)
 	genC09Repeat(c, vers, rooms)
+	genC09Order(c, vers, rooms)
+	genC09Loop(c, vers, rooms)
+}
+
+func c09Perms(n int) [][]int {
+	if n == 0 {
+		return [][]int{{}}
+	}
+	var out [][]int
+	for _, p := range c09Perms(n - 1) {
+		for i := 0; i <= len(p); i++ {
+			q := append(append(append([]int{}, p[:i]...), n-1), p[i:]...)
+			out = append(out, q)
+		}
+	}
+	return out
+}
+
+// genC09Order: the same events inserted into NewAuthEvents in every order, where one
+// (type, state_key) is supplied more than once - from the same room and from ANOTHER room.
+// AddEvent: the later event of a key replaces the earlier one; Valid() looks at the rooms of all
+// events ever added. Orders that leave the provider with the same contents must give the same verdict.
+func genC09Order(c *Ctx, vers []gmsl.RoomVersion, rooms map[gmsl.RoomVersion]*c09Room) {
+	for _, v := range vers {
+		r := rooms[v]
+		w := r.w
+		keyOf := func(i int) string { p := w.pool[i].pdu; return p.Type() + "\x00" + *p.StateKey() }
+		// duplicates on offer: other room first, then same room
+		offers := []int{r.room2.create, r.room2.pls[0], r.room2.alice, r.room2.bob, r.room2.pls[2],
+			r.pls[1], r.pls[5], r.creates[4], r.creates[1], r.cand("leave-bob"), r.jrs["invite"], r.jrs["public"], r.members[uHeidi]}
+		n := c.Scale(len(r.cands)/2, len(r.cands)*3)
+		for k := 0; k < n; k++ {
+			cd := r.cands[c.Rng.Intn(len(r.cands))]
+			if k%3 == 0 {
+				cd = c09Cand{"msg-bob", r.cand("msg-bob")}
+			}
+			rule := []string{"public", "restricted", "invite"}[c.Rng.Intn(3)]
+			base := r.provider(c, cd.ev, c09Choice{rule: rule})
+			inBase := map[string]bool{}
+			for _, b := range base {
+				inBase[keyOf(b)] = true
+			}
+			var dups []int
+			for _, o := range offers {
+				if inBase[keyOf(o)] && c.Rng.Intn(3) == 0 && len(dups) < 2 {
+					already := false
+					for _, b := range base {
+						already = already || b == o
+					}
+					if !already {
+						dups = append(dups, o)
+					}
+				}
+			}
+			if len(dups) == 0 { // always at least the sender's membership from the other room, when needed
+				for _, o := range []int{r.room2.bob, r.room2.alice, r.room2.create} {
+					if inBase[keyOf(o)] {
+						dups = append(dups, o)
+						break
+					}
+				}
+			}
+			if len(dups) == 0 {
+				continue
+			}
+			all := append(append([]int{}, base...), dups...) // positions 0..len-1 are the arguments
+			m := len(all)
+			var orders [][]int
+			if m <= 4 {
+				orders = c09Perms(m)
+			} else {
+				id := make([]int, m)
+				for i := range id {
+					id[i] = i
+				}
+				orders = append(orders, id)
+				// the duplicate right after its twin, both first
+				for d := len(base); d < m; d++ {
+					for t := 0; t < len(base); t++ {
+						if keyOf(all[t]) == keyOf(all[d]) {
+							o := []int{t, d}
+							for i := 0; i < m; i++ {
+								if i != t && i != d {
+									o = append(o, i)
+								}
+							}
+							orders = append(orders, o)
+							o2 := []int{d, t} // the other winner
+							o2 = append(o2, o[2:]...)
+							orders = append(orders, o2)
+							var o3 []int // the pair last
+							o3 = append(append(o3, o[2:]...), t, d)
+							orders = append(orders, o3)
+						}
+					}
+				}
+				for i := 0; i < c.Scale(10, 40); i++ {
+					orders = append(orders, c.Rng.Perm(m))
+				}
+			}
+			oj, _ := json.Marshal(orders)
+			evs := make([][]byte, m)
+			for i, x := range all {
+				evs[i] = w.pool[x].js
+			}
+			args := [][]byte{B(string(v)), w.pool[cd.ev].js, oj, c07SigTable(w.pool[cd.ev].js, evs)}
+			args = append(args, evs...)
+			c.Run("C09.order", args, "C09.order", "C09.prop.order_of_duplicates", fmt.Sprintf("order v%s: %s under %s, %d events, %d supplied twice", v, cd.name, rule, m, len(dups)))
+			c.Count("order/v=" + string(v))
+		}
+	}
+}
+
+// genC09Loop: the real authAndApplyEvents loop (one provider object, one context, for all events)
+// against checking every event on its own.
+func genC09Loop(c *Ctx, vers []gmsl.RoomVersion, rooms map[gmsl.RoomVersion]*c09Room) {
+	for _, v := range vers {
+		r := rooms[v]
+		w := r.w
+		id := func(i int) string { return w.pool[i].id }
+		n := c.Scale(6, 60)
+		for k := 0; k < n; k++ {
+			rule := []string{"public", "public", "restricted", "invite", "knock"}[c.Rng.Intn(5)]
+			partial := []int{r.creates[0], r.pls[0], r.jrs[rule], r.members[uAlice], r.members[uBob]}
+			core := []string{id(r.creates[0]), id(r.pls[0]), id(r.jrs[rule])}
+			// events known only through auth_events: previous memberships that are not in the partial state
+			authOnly := []int{r.members[uErin], r.members[uCarol], r.members[uDave], r.members[uFrank], r.members[uHeidi]}
+			auths := append(append([]int{}, partial...), authOnly...)
+			mem := func(target, sender, membership string, cite []int, extra map[string]interface{}) int {
+				content := map[string]interface{}{"membership": membership}
+				for k2, v2 := range extra {
+					content[k2] = v2
+				}
+				a := append([]string{}, core...)
+				for _, x := range cite {
+					a = append(a, id(x))
+				}
+				return w.mkAuth(w.roomID, spec.MRoomMember, sender, c09sp(target), content, nil, a)
+			}
+			var events []int
+			if k == 0 {
+				// a join by a banned user citing the ban (rejected), then a join of the same user from
+				// another fork that cites no membership, then an unrelated join
+				events = []int{mem(uErin, uErin, "join", []int{r.members[uErin]}, nil), mem(uErin, uErin, "join", nil, nil), mem(uGrace, uGrace, "join", nil, nil)}
+			} else {
+				users := []string{uErin, uCarol, uDave, uFrank, uHeidi, uGrace, "@ivan:a"}
+				for j := 0; j < 2+c.Rng.Intn(5); j++ {
+					u := users[c.Rng.Intn(len(users))]
+					var cite []int
+					if m, ok := r.members[u]; ok && c.Rng.Intn(2) == 0 {
+						cite = append(cite, m)
+					}
+					switch c.Rng.Intn(6) {
+					case 0, 1, 2:
+						var extra map[string]interface{}
+						if c.Rng.Intn(3) == 0 {
+							extra = map[string]interface{}{"join_authorised_via_users_server": uAlice}
+						}
+						events = append(events, mem(u, u, "join", cite, extra))
+					case 3:
+						events = append(events, mem(u, u, "knock", cite, nil))
+					case 4:
+						events = append(events, mem(u, uBob, "invite", cite, nil))
+					default:
+						events = append(events, mem(u, u, "leave", cite, nil))
+					}
+				}
+			}
+			var rejected []int
+			if c.Rng.Intn(4) == 0 {
+				rejected = append(rejected, authOnly[c.Rng.Intn(len(authOnly))])
+			}
+			// re-index: only the events used
+			remap := map[int]int{}
+			var used [][]byte
+			ix := func(l []int) []int {
+				out := make([]int, len(l))
+				for i, x := range l {
+					if _, ok := remap[x]; !ok {
+						remap[x] = len(used)
+						used = append(used, w.pool[x].js)
+					}
+					out[i] = remap[x]
+				}
+				return out
+			}
+			plan := c09LoopPlan{Partial: ix(partial), Auth: ix(auths), Events: ix(events), Rejected: ix(rejected)}
+			if plan.Rejected == nil {
+				plan.Rejected = []int{}
+			}
+			pj, _ := json.Marshal(plan)
+			c.Run("C09.loop", append([][]byte{B(string(v)), pj}, used...), "", "C09.prop.halves_equal", fmt.Sprintf("loop v%s under %s, %d events", v, rule, len(events)))
+			c.Count("loop/v=" + string(v))
+		}
+	}
 }
 
 // genC09Repeat: the verdict of an (event, provider) pair is the same on every evaluation in the
